@@ -14,6 +14,8 @@ def constants(tier, variant):
          "ParenArgs": 3, "ParenLean": True, "OneDimQuirk": False, "Emit": True}
     if variant == "d3":
         c.update({"MaxD": 3, "MaxExt": 2, "MaxDepth": 1 if tier == "quick" else 2})
+    if variant == "recv":    # the const& and && overloads of every operation, on re-based roots
+        c.update({"MaxExt": 2, "MaxDepth": 2, "Recvs": vlib.Sub("RecvsCR")})
     if tier == "thorough" and variant == "main":
         c.update({"MaxDepth": 3, "MaxExt": 2})
     return c
@@ -25,7 +27,7 @@ def run(tier):
     exe, text = views.build_replayer(wd)
     if exe is None:
         raise vlib.Broken("replay_views.cpp does not compile:\n" + text[-3000:])
-    for variant in ("main", "d3"):
+    for variant in ("main", "d3", "recv"):
         name = "c19_" + variant
         cfg = os.path.join(wd, name + ".cfg")
         c = constants(tier, variant)
